@@ -231,9 +231,19 @@ func safeCallT(d time.Duration, fn func() string) string {
 	case r := <-ch:
 		return r
 	case <-time.After(d):
+	}
+	// Not back in time: on a loaded machine a starved goroutine looks like a hang.  Give the same call
+	// ten times longer before calling it one (a real endless loop is still reported, just later).
+	select {
+	case r := <-ch:
+		slowCalls++
+		return r
+	case <-time.After(10 * d):
 		return "hang"
 	}
 }
+
+var slowCalls int
 
 func runesStr(rs []rune) string {
 	if len(rs) == 0 {
